@@ -41,8 +41,7 @@ def closed_models(run):
     """Closed models, coverage, spec mutations: independent TLC jobs, run side by side."""
     import concurrent.futures as cf
     big = vlib.NCPU >= 16
-    w = 6 if big else 3
-    models = [("Consolidation_MC.cfg", w), ("Consolidation_MCPods.cfg", w)]
+    models = [("Consolidation_MC.cfg", 5 if big else 3), ("Consolidation_MCPods.cfg", 3 if big else 2)]
     if run.tier == "thorough":
         models += [("Consolidation_MCFull.cfg", 8 if big else 4), ("Consolidation_MC3.cfg", 8 if big else 4)]
     if run.tier == "quick":
@@ -56,15 +55,22 @@ def closed_models(run):
         return cfg, run.closed_model("Consolidation", cfg, workers=workers, heap="4g", coverage=True, timeout=7200)
 
     def mutation(cfg):
-        return cfg, run.tlc("Consolidation", cfg, workers=2, heap="3g", expect_violation=(run.tier != "quick"), timeout=7200)
+        wk = 4 if (big and cfg == "Consolidation_WeakAll.cfg") else 2
+        return cfg, run.tlc("Consolidation", cfg, workers=wk, heap="3g", expect_violation=(run.tier != "quick"), timeout=7200)
+
+    def never_taken(r):
+        """Actions with count 0 in the FINAL coverage block (TLC also prints interim blocks every minute)."""
+        last = r.stdout.split("The coverage statistics at")[-1]
+        return {m.group(1) for m in re.finditer(r"^<(\w+) line \d+, col \d+ to line \d+, col \d+ of module Consolidation>: (\d+):(\d+)$", last, re.M)
+                if int(m.group(3)) == 0 and m.group(1) != "Init"}
 
     zero, rejected, seen = None, [], set()
-    with cf.ThreadPoolExecutor(max_workers=3 if big else 2) as ex:
+    with cf.ThreadPoolExecutor(max_workers=5 if big else 2) as ex:
         fm = [ex.submit(model, j) for j in models]
         fw = [ex.submit(mutation, c) for c in weak]
         for f in fm:
             cfg, r = f.result()
-            z = set(r.coverage_zero)
+            z = never_taken(r)
             zero = z if zero is None else (zero & z)   # an action must be taken in at least one focus (churn: pods focus only)
         for f in fw:
             cfg, r = f.result()
